@@ -20,6 +20,7 @@ pub mod c23_header;
 pub mod c25_sanity;
 pub mod c32_descriptor;
 pub mod c33_align;
+pub mod c40_groupby;
 
 /// Table of all bodies for the native replayer.
 pub fn replay_table() -> Vec<(&'static str, fn(&mut Src))> {
@@ -28,5 +29,6 @@ pub fn replay_table() -> Vec<(&'static str, fn(&mut Src))> {
     v.extend_from_slice(c25_sanity::TABLE);
     v.extend_from_slice(c32_descriptor::TABLE);
     v.extend_from_slice(c33_align::TABLE);
+    v.extend_from_slice(c40_groupby::TABLE);
     v
 }
